@@ -723,6 +723,9 @@ class Repo:
             if isinstance(fn, ast.Name):
                 if fn.id in self.classes:
                     return fn.id
+                imp = fi.module.imports.get(fn.id)
+                if imp is not None and imp[0] == "threading" and imp[1] in ("Lock", "RLock"):
+                    return "Lock"
                 if fn.id == "cast" and node.args:
                     return self._ann_class(node.args[0])
                 tgt = fi.module.functions.get(fn.id)
